@@ -37,72 +37,79 @@ def fields(fam):
     return {"two-field": ("uid", "org"), "three-field": ("uid", "org", "zone")}.get(fam, ("uid",))
 
 
-def assign(fam, off, salt, vname, m):
+def build_for(fam, salt, vname):
     v = VECTORS[vname]
     ast = ("prog", "e", salt, fields(fam), ("ret", tuple((f"g{i}", w) for i, w in enumerate(v))))
-    b = impl.build(rp.render(ast))
-    if b[0] != "ok":
-        return None, rp.render(ast), b
-    ev = b[1]
-    idx = {f"g{i}": i for i in range(len(v))}
+    text = rp.render(ast)
+    return text, impl.build(text)
+
+
+def assign(ev, vname, pop):
+    idx = {f"g{i}": i for i in range(len(VECTORS[vname]))}
     out = []
-    for env in population(fam, off, m):
+    for env in pop:
         r = impl.call(ev, env)
-        out.append(idx.get(r[1], -1) if r[0] == "ok" else -1)
-    return out, rp.render(ast), None
+        out.append(idx.get(r[1], -1) if r[0] == "ok" and isinstance(r[1], str) else -1)
+    return out
 
 
 def _work(units):
     acc = progcheck.Acc()
-    for fam, off, vname, salts, m in units:
-        v = [float(x) for x in VECTORS[vname]]
-        T = sum(v)
-        results = {}
-        for salt in salts:
-            a, text, err = assign(fam, off, salt, vname, m)
-            acc.add("programs")
-            acc.add("evaluations", m)
-            case = {"family": fam, "offset": off, "salt": salt, "weights": VECTORS[vname], "n": m}
-            if a is None or -1 in a:
-                acc.violation({"kind": "stat:eval", "case": case, "text": text, "observed": short(repr(err or 'an evaluation failed'))})
-                continue
-            results[salt] = a
-            counts = [a.count(i) for i in range(len(v))]
-            x2 = sum((c - m * w / T) ** 2 / (m * w / T) for c, w in zip(counts, v))
-            p = chi2.sf(x2, len(v) - 1)
-            acc.add("gof_tests")
-            if sum(1 for c in counts if c) >= 2:
-                acc.outcomes.add((fam, off, str(salt), vname))
-            if p < ALPHA:
-                acc.violation({"kind": "stat:gof", "case": case, "text": text, "observed": {"counts": counts, "chi2": x2, "p": p},
-                               "why": f"group frequencies inconsistent with the declared weights (p={p:.3g} < {ALPHA})"})  # fmt: skip
-            elif len(acc.samples) < 1:
-                acc.samples.append({"case": case, "counts": counts, "chi2": round(x2, 3), "p": p})
-        keys = [s for s in salts if s in results]
-        for i in range(len(keys)):
-            for j in range(i + 1, len(keys)):
-                s1, s2 = keys[i], keys[j]
-                if (s1 or "") == (s2 or ""):
-                    continue  # absent and empty salt are the same salt
-                n = len(v)
-                tab = [[0] * n for _ in range(n)]
-                for x, y in zip(results[s1], results[s2]):
-                    tab[x][y] += 1
-                rs = [sum(r) for r in tab]
-                cs = [sum(tab[r][c] for r in range(n)) for c in range(n)]
-                x2 = 0.0
-                for r in range(n):
-                    for c in range(n):
-                        e = rs[r] * cs[c] / m
-                        if e > 0:
-                            x2 += (tab[r][c] - e) ** 2 / e
-                df = (sum(1 for r in rs if r) - 1) * (sum(1 for c in cs if c) - 1)
-                p = chi2.sf(x2, df) if df > 0 else 1.0
-                acc.add("independence_tests")
-                acc.outcomes.add((fam, off, str(s1), str(s2), vname))
+    for fam, off, vnames, salts, m in units:
+        # like a service that keeps many experiments alive: compile ALL of them first, evaluate afterwards
+        built = {(vn, s): build_for(fam, s, vn) for vn in vnames for s in salts}
+        pop = population(fam, off, m)
+        for vname in vnames:
+            v = [float(x) for x in VECTORS[vname]]
+            T = sum(v)
+            results = {}
+            for salt in salts:
+                text, b = built[(vname, salt)]
+                acc.add("programs")
+                acc.add("evaluations", m)
+                case = {"family": fam, "offset": off, "salt": salt, "weights": VECTORS[vname], "n": m, "compiled_together": [list(k) for k in built]}
+                a = assign(b[1], vname, pop) if b[0] == "ok" else None
+                if a is None or -1 in a:
+                    acc.violation({"kind": "stat:eval", "case": case, "text": text, "observed": short(repr(b if b[0] != "ok" else "an evaluation failed or returned an undeclared group"))})
+                    continue
+                results[salt] = a
+                counts = [a.count(i) for i in range(len(v))]
+                x2 = sum((c - m * w / T) ** 2 / (m * w / T) for c, w in zip(counts, v))
+                p = chi2.sf(x2, len(v) - 1)
+                acc.add("gof_tests")
+                if sum(1 for c in counts if c) >= 2:
+                    acc.outcomes.add((fam, off, str(salt), vname))
                 if p < ALPHA:
-                    acc.violation({"kind": "stat:dependent", "case": {"family": fam, "offset": off, "salts": [s1, s2], "weights": VECTORS[vname], "n": m},
-                                   "observed": {"chi2": x2, "df": df, "p": p}, "why": f"assignments under salts {s1!r} and {s2!r} are not independent (p={p:.3g})"})  # fmt: skip
+                    acc.violation({"kind": "stat:gof", "case": case, "text": text, "observed": {"counts": counts, "chi2": x2, "p": p},
+                                   "why": f"group frequencies inconsistent with the declared weights (p={p:.3g} < {ALPHA})"})  # fmt: skip
+                elif len(acc.samples) < 1:
+                    acc.samples.append({"case": {k: case[k] for k in ("family", "offset", "salt", "weights", "n")}, "counts": counts, "chi2": round(x2, 3), "p": p})
+            keys = [s for s in salts if s in results]
+            for i in range(len(keys)):
+                for j in range(i + 1, len(keys)):
+                    s1, s2 = keys[i], keys[j]
+                    if (s1 or "") == (s2 or ""):
+                        continue  # absent and empty salt are the same salt
+                    n = len(v)
+                    tab = [[0] * n for _ in range(n)]
+                    for x, y in zip(results[s1], results[s2]):
+                        tab[x][y] += 1
+                    rs = [sum(r) for r in tab]
+                    cs = [sum(tab[r][c] for r in range(n)) for c in range(n)]
+                    x2 = 0.0
+                    for r in range(n):
+                        for c in range(n):
+                            e = rs[r] * cs[c] / m
+                            if e > 0:
+                                x2 += (tab[r][c] - e) ** 2 / e
+                    df = (sum(1 for r in rs if r) - 1) * (sum(1 for c in cs if c) - 1)
+                    p = chi2.sf(x2, df) if df > 0 else 1.0
+                    acc.add("independence_tests")
+                    acc.outcomes.add((fam, off, str(s1), str(s2), vname))
+                    if p < ALPHA:
+                        acc.violation({"kind": "stat:dependent", "case": {"family": fam, "offset": off, "salts": [s1, s2], "weights": VECTORS[vname], "n": m,
+                                                                           "compiled_together": [list(k) for k in built]},
+                                       "observed": {"chi2": x2, "df": df, "p": p}, "why": f"assignments under salts {s1!r} and {s2!r} are not independent (p={p:.3g})"})  # fmt: skip
     return acc.out()
 
 
@@ -110,21 +117,22 @@ def run(res, tier):
     chi2.selfcheck()
     if tier == "quick":
         m = 20000
-        units = [(f, o, v, [None, "a", "exp_2024"], m) for f in FAMILIES for o in (0, 10**9) for v in ("11", "123", "ten")]
+        units = [(f, o, ["11", "123", "ten", "hh"], [None, "a", "exp_2024"], m) for f in FAMILIES for o in (0, 10**9)]
     else:
         m = 200000
-        units = [(f, o, v, SALTS, m) for f in FAMILIES for o in OFFSETS for v in VECTORS]
+        units = [(f, o, list(VECTORS), SALTS, m) for f in FAMILIES for o in OFFSETS]
     for w in pmap(_work, permuted(units, "c04"), chunk=1):
         res.merge_worker(w)
     res.set("distinct_nontrivial", len(res.outcomes))
-    res.set("bounds", {"families": FAMILIES, "ids_per_population": m, "configurations": len(units), "alpha": ALPHA})
+    res.set("bounds", {"families": FAMILIES, "ids_per_population": m, "configurations": sum(len(u[2]) * len(u[3]) for u in units), "alpha": ALPHA})
     res.assumptions += ["the oracle is statistical: a deviation below the 1e-9 critical value at this population size is invisible here (C03 decides boundaries exactly)"]
 
 
 def replay(data):
     c = data["case"]
-    salts = c.get("salts") or [c.get("salt")]
-    vname = next(k for k, v in VECTORS.items() if v == c["weights"])
-    r = _work([(c["family"], c["offset"], vname, salts, c["n"])])
+    tog = c.get("compiled_together") or []
+    vnames = sorted({k[0] for k in tog}) or [next(k for k, v in VECTORS.items() if v == c["weights"])]
+    salts = list(dict.fromkeys([k[1] for k in tog])) or (c.get("salts") or [c.get("salt")])
+    r = _work([(c["family"], c["offset"], vnames, salts, c["n"])])
     bad = [v for v in r["viol"] if v["kind"] == data["kind"]]
-    return bool(bad), (bad[0]["why"] if bad else "consistent")
+    return bool(bad), (bad[0].get("why", str(bad[0].get("observed"))) if bad else "consistent")
